@@ -41,6 +41,9 @@ def determinism(args):
         check.HASHSEEDS = [(h + 7919) for h in hs_alt["HASHSEEDS"]]
         outs, errors = R.run_lanes(check, "quick", 424242, runs, digests=True, lanes=16, procs=16)
         check.HASHSEEDS = hs_alt["HASHSEEDS"]
+        if errors:
+            print(f"[determinism] {cid} other-hash-seed run: lane errors {[(e[0], e[1], e[2][-300:]) for e in errors[:2]]}")
+            bad += 1
         m = R.merge(outs)
         alt = {d[0]: tuple(d[1:]) for d in m["digests"]}
         vdiff = [i for i in base if alt.get(i, (None, None, None))[1:] != base[i][1:]]
